@@ -160,18 +160,29 @@ class Check:
                 self.broken.append((f"theorem {n}", f"depends on disallowed axioms {badax}"))
             else:
                 self.discharged += 1
-        # forbidden constructs anywhere in model / proof sources
-        for root, _, files in os.walk(os.path.join(LEAN, "Witverif")):
-            for fn in files:
-                if not fn.endswith(".lean"): continue
-                p = os.path.join(root, fn)
-                src = strip_lean_comments(open(p).read())
-                for pat in FORBIDDEN:
-                    m = re.search(pat, src, re.M)
-                    if m:
-                        self.broken.append((f"forbidden construct in {os.path.relpath(p, VERIF)}", m.group(0)))
-                if re.search(r"\bbv_decide\b", src) and not (allow_bv_decide or "/Props/C04" in p or "/Props/C14" in p or "/Proofs/Scalar" in p):
-                    self.broken.append((f"bv_decide outside allow-list in {os.path.relpath(p, VERIF)}", "bv_decide"))
+        # forbidden constructs in every source file the Props module transitively imports
+        for p in self.transitive_sources(module):
+            src = strip_lean_comments(open(p).read())
+            for pat in FORBIDDEN:
+                m = re.search(pat, src, re.M)
+                if m:
+                    self.broken.append((f"forbidden construct in {os.path.relpath(p, VERIF)}", m.group(0)))
+            if re.search(r"\bbv_decide\b", src) and not allow_bv_decide:
+                self.broken.append((f"bv_decide outside allow-list in {os.path.relpath(p, VERIF)}", "bv_decide"))
+
+    def transitive_sources(self, module):
+        seen, todo, files = set(), [module], []
+        while todo:
+            m = todo.pop()
+            if m in seen: continue
+            seen.add(m)
+            p = os.path.join(LEAN, *m.split(".")) + ".lean"
+            if not os.path.exists(p): continue      # core / Std / Mathlib module
+            files.append(p)
+            for line in open(p):
+                mm = re.match(r"\s*(?:public\s+)?import\s+(?:all\s+)?(\S+)", line)
+                if mm: todo.append(mm.group(1))
+        return files
 
     def leanchecker(self, module):
         rc, out = sh(["lake", "env", "leanchecker", module], cwd=LEAN, timeout=3000)
